@@ -86,3 +86,15 @@ Theorem C01_auer_regenerated_is_reference : forall A st,
   auer_compose A st = au_round (a_dom A) (a_cov A) (a_hold A) st.
 Proof. exact auer_round_refines. Qed.
 Print Assumptions C01_auer_regenerated_is_reference.
+
+(* the guarantee theorems above speak about runs from Spec.init_state K: that is the state the regenerated constructors of
+   the PaVeBa family and Auer set up *)
+From VOPy Require StepMachine ExtraRefine2.
+From VOPyGen Require Gen_extra2.
+Theorem C01_runs_start_from_the_constructed_state : forall K b L,
+  StepMachine.a_st (Gen_extra2.gen_init_paveba K b L) = init_state K /\
+  StepMachine.a_st (Gen_extra2.gen_init_pavebagp K b L) = init_state K /\
+  StepMachine.a_st (Gen_extra2.gen_init_pavebapartialgp K b L) = init_state K /\
+  StepMachine.a_st (Gen_extra2.gen_init_auer K b L) = init_state K.
+Proof. intros. repeat split; reflexivity. Qed.
+Print Assumptions C01_runs_start_from_the_constructed_state.
